@@ -745,8 +745,11 @@ impl ExactSizeIterator for BitVectorIntoIter {
 impl Iterator for BitVectorIntoIter {
     type Item = bool;
     fn next(&mut self) -> Option<Self::Item> {
-        self.i += 1;
-        self.bv.get(self.i - 1)
+        let bit = self.bv.get(self.i);
+        if bit.is_some() {
+            self.i += 1;
+        }
+        bit
     }
 }
 
